@@ -111,7 +111,7 @@ def c17Day (ctx : Ctx) (e : Expr) (d : Int) (rs : List TimeRange) : Option Strin
   else if rs.any (fun r => r.comments.any (fun c => !(all.contains c))) then some "from-expression"
   -- the remaining clauses speak about which rules apply: they need every dated range of the
   -- expression to have a defined meaning (`exprDefined`)
-  else if !(exprDefined e) || exprBigShift e then none
+  else if !(exprDefined e) then none
   else if rs.any (fun r => r.comments.any (fun c => !(contributing.any (fun ru => ru.comments.contains c)))) then some "provenance"
   else if (!inRange || contributing.isEmpty) && rs.any (fun r => !r.comments.isEmpty) then some "empty-outside"
   else if !inRange then none
